@@ -58,6 +58,12 @@ fn thresholds(_t: Tier) -> Vec<(&'static str, u64)> {
     ]
 }
 
+/// documents carry ids on some elements: options must behave the same
+fn with_ids(mut p: Profile) -> Profile {
+    p.id_permille = 120;
+    p
+}
+
 fn base_cfg(rng: &mut Rng) -> Cfg {
     match rng.below(4) {
         0 => Cfg::plain(),
@@ -126,7 +132,7 @@ fn run_case(seed: u64, idx: u64, _tier: Tier, out: &mut CaseOut) {
     match rel {
         0 => {
             // max_wrap_width(m), m >= w: no effect
-            let doc = gen_doc(&mut rng, &Profile::full());
+            let doc = gen_doc(&mut rng, &with_ids(Profile::full()));
             let input = ser_canonical(&doc);
             let mut opt = base.clone();
             opt.max_wrap = Some(w + rng.below(50));
@@ -148,7 +154,7 @@ fn run_case(seed: u64, idx: u64, _tier: Tier, out: &mut CaseOut) {
             p.headings = false;
             p.dl = false;
             p.links = false;
-            let doc = gen_doc(&mut rng, &p);
+            let doc = gen_doc(&mut rng, &with_ids(p));
             let input = ser_canonical(&doc);
             let m = rng.range(1, w);
             let mut opt = base.clone();
@@ -165,7 +171,7 @@ fn run_case(seed: u64, idx: u64, _tier: Tier, out: &mut CaseOut) {
         }
         2 => {
             // table-free: lines <= P + m
-            let p = Profile::full().no_tables();
+            let p = with_ids(Profile::full().no_tables());
             let doc = gen_doc(&mut rng, &p);
             let input = ser_canonical(&doc);
             let m = rng.range(1, w);
@@ -187,7 +193,7 @@ fn run_case(seed: u64, idx: u64, _tier: Tier, out: &mut CaseOut) {
         }
         3 => {
             // pad_block_width only appends trailing spaces
-            let doc = gen_doc(&mut rng, &Profile::full());
+            let doc = gen_doc(&mut rng, &with_ids(Profile::full()));
             let mut input = ser_canonical(&doc);
             if idx == 3 {
                 // regression input: empty preformatted line followed by a block
@@ -448,8 +454,10 @@ fn run_case(seed: u64, idx: u64, _tier: Tier, out: &mut CaseOut) {
                     out.inc("unwrapped_notes_wider_than_w");
                 }
                 out.observe(crate::rng::hash_str(y) ^ 0x800);
-            } else if a.is_total() && b.is_total() && a.kind() != b.kind() {
-                viol(out, "no_link_wrap-changes-outcome", "no_link_wrapping changed whether rendering succeeds".into(), &input, w, &basef, &opt, &a, &b);
+            } else if a.is_ok() && b.is_total() && !b.is_ok() {
+                // (the reverse is legitimate: an unwrappable footnote character makes the
+                // wrapped rendering TooNarrow while the unwrapped one succeeds)
+                viol(out, "no_link_wrap-changes-outcome", "no_link_wrapping made a successful rendering fail".into(), &input, w, &basef, &opt, &a, &b);
             }
         }
         _ => {
